@@ -51,6 +51,8 @@ pub struct HashAggregateState<'a, S: RowSource> {
     pub group_by: Vec<usize>,
     pub group_by_exprs: Option<Vec<CompiledPredicate<'a>>>,
     pub aggregates: Vec<AggregateFunction>,
+    /// argument of aggregate i when it is an expression rather than a plain column
+    pub aggregate_args: Vec<Option<CompiledPredicate<'a>>>,
     pub arena: &'a Bump,
     pub groups: hashbrown::HashMap<Vec<u8>, (GroupValues, GroupAggStates)>,
     pub result_iter: Option<std::vec::IntoIter<(GroupValues, GroupAggStates)>>,
@@ -95,17 +97,32 @@ impl AggregateState {
     }
 
     pub(crate) fn update(&mut self, func: &AggregateFunction, row: &ExecutorRow) -> eyre::Result<()> {
+        const ONE: Value<'static> = Value::Int(1);
+        let val = match func {
+            AggregateFunction::Count { column: None, .. } => Some(&ONE),
+            AggregateFunction::Count { column: Some(column), .. }
+            | AggregateFunction::Sum { column }
+            | AggregateFunction::Avg { column }
+            | AggregateFunction::Min { column }
+            | AggregateFunction::Max { column } => row.get(*column),
+        };
+        self.update_value(func, val)
+    }
+
+    /// `val`: the value of the aggregate's argument on this row (COUNT(*): any non-NULL value)
+    pub(crate) fn update_value(
+        &mut self,
+        func: &AggregateFunction,
+        val: Option<&Value>,
+    ) -> eyre::Result<()> {
         match func {
-            AggregateFunction::Count { distinct: _, column } => match column {
-                None => self.count += 1,
-                Some(col) => {
-                    if matches!(row.get(*col), Some(val) if !val.is_null()) {
-                        self.count += 1;
-                    }
+            AggregateFunction::Count { .. } => {
+                if matches!(val, Some(v) if !v.is_null()) {
+                    self.count += 1;
                 }
-            },
-            AggregateFunction::Sum { column } => {
-                if let Some(val) = row.get(*column) {
+            }
+            AggregateFunction::Sum { .. } => {
+                if let Some(val) = val {
                     match val {
                         Value::Int(i) => {
                             self.sum = self
@@ -122,8 +139,8 @@ impl AggregateState {
                     }
                 }
             }
-            AggregateFunction::Avg { column } => {
-                if let Some(val) = row.get(*column) {
+            AggregateFunction::Avg { .. } => {
+                if let Some(val) = val {
                     match val {
                         Value::Int(i) => {
                             self.sum = self
@@ -140,8 +157,8 @@ impl AggregateState {
                     }
                 }
             }
-            AggregateFunction::Min { column } => {
-                if let Some(val) = row.get(*column) {
+            AggregateFunction::Min { .. } => {
+                if let Some(val) = val {
                     match val {
                         Value::Int(i) => {
                             self.min_int = Some(self.min_int.map_or(*i, |m| m.min(*i)));
@@ -158,8 +175,8 @@ impl AggregateState {
                     }
                 }
             }
-            AggregateFunction::Max { column } => {
-                if let Some(val) = row.get(*column) {
+            AggregateFunction::Max { .. } => {
+                if let Some(val) = val {
                     match val {
                         Value::Int(i) => {
                             self.max_int = Some(self.max_int.map_or(*i, |m| m.max(*i)));
